@@ -203,6 +203,7 @@ class PVLParser(object):
     def parse(self, s: str):
         """Converts the string, *s* to a PVLModule."""
         self.doc = s
+        self._simple_value = (None, None)
         tokens = self.lexer(s, g=self.grammar, d=self.decoder)
         module = self.parse_module(tokens)
         module.errors = sorted(self.errors)
@@ -756,6 +757,8 @@ class PVLParser(object):
         try:
             t = next(tokens)
             value = self.decoder.decode_simple_value(t)
+            # Remembered for OmniParser.parse_module_post_hook()
+            self._simple_value = (t, value)
         except ValueError:
             tokens.send(t)
             for p in (
@@ -931,10 +934,19 @@ class OmniParser(PVLParser):
             t = next(tokens)
             if t == "=" and len(module) != 0:
                 (last_k, last_v) = module[-1]
-                last_token = Token(
-                    last_v, grammar=self.grammar, decoder=self.decoder
-                )
-                if last_token.is_parameter_name():
+                # The previous value can only have been meant as the next
+                # Parameter Name if it was a bare word, so look at the
+                # token that it was decoded from, if that is known.
+                (last_token, v) = getattr(self, "_simple_value", (None, None))
+                if last_token is None or v is not last_v:
+                    last_token = Token(
+                        last_v, grammar=self.grammar, decoder=self.decoder
+                    )
+                if (
+                    type(last_v) is str
+                    and len(last_v) > 0
+                    and last_token.is_parameter_name()
+                ):
                     # Fix the previous entry
                     module.pop()
                     module.append(last_k, self._empty_value(t.pos))
